@@ -9,6 +9,7 @@ package concfam
 
 import (
 	"context"
+	"deps.dev/util/resolve"
 	"encoding/json"
 	"fmt"
 	"path/filepath"
@@ -36,6 +37,23 @@ type c16PatchCase struct {
 	Choices []int `json:"choices"`
 	// Only, when set, restricts the run to this schedule (replay of one finding).
 	Only *c16Schedule `json:"only,omitempty"`
+	// FailVersions names a package whose version listing fails in the resolve client ("the
+	// registry is down for this one package"): the attempts that need it fail, and that must
+	// not change what their sibling attempts produce, under any schedule.
+	FailVersions string `json:"fail_versions,omitempty"`
+}
+
+// failingClient fails Versions for one package name.
+type failingClient struct {
+	resolve.Client
+	name string
+}
+
+func (f failingClient) Versions(ctx context.Context, pk resolve.PackageKey) ([]resolve.Version, error) {
+	if pk.Name == f.name {
+		return nil, fmt.Errorf("generated failure: the registry does not answer for %s", pk.Name)
+	}
+	return f.Client.Versions(ctx, pk)
 }
 
 type c16Schedule struct {
@@ -111,6 +129,27 @@ func genChainScenario(t *rapid.T) universe.Scenario {
 }
 
 func genC16Patch(t *rapid.T) c16PatchCase {
+	c := genC16PatchScenario(t)
+	if rapid.IntRange(0, 3).Draw(t, "fail_versions") == 0 {
+		// a direct dependency (what relax looks up) or any package an advisory names (what
+		// override looks up)
+		var names []string
+		for _, d := range c.Scenario.Manifest.Deps {
+			names = append(names, d.Name)
+		}
+		for _, v := range c.Scenario.Vulns {
+			for _, a := range v.Affected {
+				names = append(names, a.Package.Name)
+			}
+		}
+		if len(names) > 0 {
+			c.FailVersions = names[rapid.IntRange(0, len(names)-1).Draw(t, "fail_name")]
+		}
+	}
+	return c
+}
+
+func genC16PatchScenario(t *rapid.T) c16PatchCase {
 	if rapid.IntRange(0, 2).Draw(t, "chain") == 0 {
 		c := c16PatchCase{Scenario: genChainScenario(t)}
 		n := rapid.IntRange(4, 12).Draw(t, "n_choices")
@@ -188,11 +227,11 @@ type schedResult struct {
 }
 
 // runSchedule computes the patch list under one schedule.
-func runSchedule(w *universe.World, path string, ro options.RemediationOptions, initial []string, s c16Schedule) schedResult {
+func runSchedule(w *universe.World, cl resolve.Client, path string, ro options.RemediationOptions, initial []string, s c16Schedule) schedResult {
 	g := newGate()
 	resCh := make(chan schedResult, 1)
 	go func() {
-		p, ids, err := verifhooks.AllPatches(context.Background(), w.Scenario.Strategy(), w.Client, w.Matcher, w.System,
+		p, ids, err := verifhooks.AllPatches(context.Background(), w.Scenario.Strategy(), cl, w.Matcher, w.System,
 			scalibrfs.DirFS(filepath.Dir(path)), filepath.Base(path), &ro, g)
 		g.mu.Lock()
 		g.done = true
@@ -318,8 +357,13 @@ func propC16Patch(c c16PatchCase) (ev.Outcome, error) {
 		ro.UpgradeConfig = c.Scenario.Levels.Config()
 		return ro
 	}
+	var cl resolve.Client = w.Client
+	if c.FailVersions != "" {
+		cl = failingClient{Client: w.Client, name: c.FailVersions}
+		o.Classes = append(o.Classes, "patch_client_fails_for_one_package")
+	}
 	// reference: the plain (ungated) computation
-	ref, ids, err := verifhooks.AllPatches(context.Background(), w.Scenario.Strategy(), w.Client, w.Matcher, w.System,
+	ref, ids, err := verifhooks.AllPatches(context.Background(), w.Scenario.Strategy(), cl, w.Matcher, w.System,
 		scalibrfs.DirFS(filepath.Dir(path)), filepath.Base(path), ptr(mkOpts()), nil)
 	if err != nil || w.Client.Exceeded() {
 		o.Classes = append(o.Classes, "patch_scenario_unusable")
@@ -367,7 +411,7 @@ func propC16Patch(c c16PatchCase) (ev.Outcome, error) {
 		scheds = append(scheds, c16Schedule{Perm: perms[0], Choices: c.Choices, Parallel: 2})
 	}
 	for _, s := range scheds {
-		r := runSchedule(w, path, mkOpts(), ids, s)
+		r := runSchedule(w, cl, path, mkOpts(), ids, s)
 		if r.err != nil {
 			return o, fmt.Errorf("patch computation failed under schedule %+v: %v", s, r.err)
 		}
@@ -380,7 +424,7 @@ func propC16Patch(c c16PatchCase) (ev.Outcome, error) {
 		if len(r.order) > len(ids) {
 			o.Classes = append(o.Classes, "patch_schedule_with_followup_attempts")
 		}
-		sub := c16PatchCase{Scenario: c.Scenario, Only: &s}
+		sub := c16PatchCase{Scenario: c.Scenario, Only: &s, FailVersions: c.FailVersions}
 		if c.Only == nil {
 			col.Record(sub, ev.Outcome{NonTrivial: nonSpawn && len(r.exits) >= 2, Classes: []string{fmt.Sprintf("patch_schedule_parallel_%d", min(s.Parallel, 3))},
 				Key: fmt.Sprint(patchesKey(nil), c.Scenario.Universe.Text(), c.Scenario.Manifest, s)}, nil)
